@@ -258,6 +258,11 @@ func runShards(w *Work, node string, batch *proto.Batch, out *Outcome, timeout t
 				if err2 == errWatchdog {
 					return fmt.Errorf("shard %d: run %d alone: %v", s, res[s].cur, err2)
 				}
+				if err2 != nil && strings.HasPrefix(crashLine(stderr2), "panic:") && !strings.Contains(stderr2, "github.com/200sc/bebop") && !strings.Contains(stderr2, "verifh/gen/") {
+					// a Go panic whose goroutine never was inside the code under test: the
+					// harness's own failure, never a verdict about the repository
+					return fmt.Errorf("shard %d: run %d alone: the simulation node panicked outside the code under test:\n%s", s, res[s].cur, clipS(stderr2, 2000))
+				}
 				if err2 != nil {
 					rp := &proto.Replay{Format: "verif-replay/1", Property: batch.Property, Seed: batch.Seed, Run: res[s].cur, Params: batch.Params,
 						Scenario:  proto.Scenario{Kind: "rerun"},
